@@ -48,7 +48,30 @@ def main() -> int:
     build = core.ensure_build(clean=args.clean or (args.tier == "thorough" and os.environ.get("FV_NO_CLEAN") != "1"))
     if args.replay:
         return mod.replay(args.replay, build)
-    return mod.check(args.tier, seed, t0, build)
+    try:
+        return mod.check(args.tier, seed, t0, build)
+    except Exception as e:  # noqa: BLE001
+        # The harness reads the implementation's own data structures (reps, specs, templates).  When the code under test has
+        # changed so much that the harness cannot run to its end, the correspondence between model and implementation is
+        # broken: the property is no longer shown to hold.  Reported as a violation without a failing input, never as a crash.
+        import traceback
+
+        tb = traceback.format_exc()
+        last = [ln.strip() for ln in tb.strip().splitlines() if ln.strip()][-1]
+        oc = core.Outcome()
+        oc.rule = "the run stopped before it was complete: the harness could not interpret the implementation (see the replay file)"
+        oc.violations.append(core.Violation(
+            key=f"{pid.lower()}:harness-exception",
+            what=f"the correspondence harness of {pid} stopped with {type(e).__name__}: {last[:200]}",
+            no_failing_input=True,
+            replay={"broken": f"correspondence harness of {pid} (tools/fv/props/{pid.lower()}.py) could not run against the current implementation",
+                    "exception": type(e).__name__, "traceback": tb[-4000:], "searched": "the run did not get far enough to search for a failing input"}))
+        ps = None
+        try:
+            ps = core.proof_status(getattr(mod, "PROP_FILE"), build)
+        except Exception:  # noqa: BLE001
+            ps = None
+        return core.finish(pid, args.tier, seed, t0, ps, build, oc, list(getattr(mod, "TRUSTED", [])), list(getattr(mod, "ASSUME", [])))
 
 
 if __name__ == "__main__":
